@@ -5,7 +5,7 @@ import itertools
 from ..absint import Interp, Obj, TOP, ClassRef
 from ..astutil import calls, kwarg, local_defs, single_def
 from ..facts import Facts
-from ..model import AnalysisError, src, walk_own
+from ..model import AnalysisError, LostAnchor, src, walk_own
 
 RL = 'python_minifier.rename.rename_literals'
 UTIL = 'python_minifier.rename.util'
@@ -203,6 +203,10 @@ def excl(model, rep):
         so = Obj('HoistLiterals', _ignore_slots=True, _hoisted={})
         res = I.explore(lambda: I.call_method(HL, method, so, [node]))
         for (o, ev, unk) in res:
+            if o[0] == 'raise' and ('no parent' in str(o[1]) or 'AttributeError' in str(o[1])):
+                # the rule builds its nodes by hand (class, fields, namespace); code that asks such a node for more - its parent, another
+                # annotation - is code this white-box rule was not written for
+                raise LostAnchor('HoistLiterals.%s reads more of a node than the hand-built probe of this rule provides (%s)' % (method, o[1]))
             if o[0] not in ('return',):
                 raise AnalysisError('UNDECIDED: HoistLiterals.%s -> %s %s' % (method, o, unk[:3]))
         return registered, visited
